@@ -25,7 +25,49 @@ from engine.zoo import make_mesh, topo, simplex_det, cross2
 from checks.c03 import renumbered, shifted
 
 
-def weights_of(h, P0, Mp, names):
+def _float_weights(A, cells, refp, x, tol=1e-9):
+    dim, nv0 = A.shape
+    for K in range(cells.shape[1]):
+        vs = cells[:, K]
+        Pc = A[:, vs]
+        if refp is None or len(vs) == dim + 1:
+            try:
+                wl = np.linalg.solve(np.vstack([Pc, np.ones((1, len(vs)))]), np.concatenate([x, [1.0]]))
+            except np.linalg.LinAlgError:
+                continue
+        else:
+            R = np.asarray(refp, dtype=float)
+
+            def phi(X):
+                return np.array([np.prod([X[d] if R[d, a] > 0.5 else 1 - X[d] for d in range(dim)]) for a in range(len(vs))])
+            X = np.full(dim, 0.5)
+            for _ in range(60):
+                r = Pc @ phi(X) - x
+                J = np.empty((dim, dim))
+                for d in range(dim):
+                    e = np.zeros(dim)
+                    e[d] = 1e-6
+                    J[:, d] = (Pc @ phi(X + e) - Pc @ phi(X - e)) / 2e-6
+                try:
+                    dX = np.linalg.solve(J, r)
+                except np.linalg.LinAlgError:
+                    break
+                X = X - dX
+                if np.abs(dX).max() < 1e-13:
+                    break
+            if np.abs(Pc @ phi(X) - x).max() > 1e-9:
+                continue
+            wl = phi(X)
+        if wl.min() < -tol:
+            continue
+        w = np.zeros(nv0)
+        for a, val in zip(vs, wl):
+            w[a] += val
+        return w
+    return None
+
+
+def weights_of(h, P0, Mp, names, cells=None, refp=None):
     """Constant weights W[v, a] with Mp[:, v] == sum_a W[v, a] P0[:, a], extracted from the first coordinate row and then
     PROVED for every row by the solver (symbolic mode); least squares on floats in replay mode."""
     dim, nv0 = P0.shape
@@ -50,13 +92,16 @@ def weights_of(h, P0, Mp, names):
     else:
         A = np.asarray(P0, dtype=float)
         B = np.asarray(Mp, dtype=float)
-        # generic coarse geometry: solve for weights in the barycentric sense per vertex using rational guesses k/2^n
-        Aug = np.vstack([A, np.ones((1, nv0))])
+        # replay mode: the weights of a fine vertex are its barycentric / multilinear coordinates in a coarse cell containing it
+        # (unique per cell; equal for all cells sharing the point), rounded to dyadic rationals
+        assert cells is not None, 'replay mode needs the coarse connectivity'
         for v in range(nv):
-            rhs = np.concatenate([B[:, v], [1.0]])
-            w, *_ = np.linalg.lstsq(Aug, rhs, rcond=None)
+            w = _float_weights(A, np.asarray(cells), refp, B[:, v])
+            if w is None:
+                h.concrete('vertex %d lies in a coarse cell' % v, False)
+                W[v] = [Fr(0)] * nv0
+                continue
             W[v] = [Fr(float(x)).limit_denominator(64) for x in w]
-        # (replay only needs the concrete side conditions; the identities are re-evaluated numerically)
         for v in range(nv):
             for d in range(dim):
                 h.zero('vertex %d [%d] == constant combination of coarse vertices' % (v, d),
@@ -116,7 +161,7 @@ def analyse(h, tag, m, M, k, names, marked=None, expect_children=None):
     for v in range(nv0):
         for d in range(dim):
             h.zero('%s: old vertex %d keeps its position [%d]' % (tag, v, d), P1[d, v] - P0[d, v])
-    W = weights_of(h, P0[:, :nv0], P1[:, :nv1], names)
+    W = weights_of(h, P0[:, :nv0], P1[:, :nv1], names, cells=t0v, refp=(m.refdom.p if kind in ('quad', 'hex') else None))
     h.concrete('%s: weights non-negative (convex combinations)' % tag, all(W[v, a] >= 0 for v in range(nv1) for a in range(nv0)))
     h.concrete('%s: no duplicate vertices' % tag, len({tuple(W[v]) for v in range(nv1)}) == nv1)
     # parent map
